@@ -250,11 +250,14 @@ package crypto
 //@   ensures [ascending] forall i int, j int :: old(tracelen(cb)) <= i && i < j && j < tracelen(cb) ==> traceat(cb, 1, i) < traceat(cb, 1, j)
 //@   ensures [stops-at-false] forall i int :: old(tracelen(cb)) <= i && i < tracelen(cb) - 1 ==> traceat(cb, 2, i) == 1
 //@   ensures [grows] tracelen(cb) >= old(tracelen(cb))
+//@   ensures [complete-count] tracelen(cb) == old(tracelen(cb)) || traceat(cb, 2, tracelen(cb) - 1) == 1 ==> tracelen(cb) - old(tracelen(cb)) == cnt(bf.data, len(bf.data))
 //@   loop 0 invariant [len] tracelen(cb) >= old(tracelen(cb))
+//@   loop 0 invariant [count] tracelen(cb) - old(tracelen(cb)) == cnt(bf.data, rangeindex + 1)
 //@   loop 0 invariant [members] forall i int :: old(tracelen(cb)) <= i && i < tracelen(cb) ==> mem(bf, traceat(cb, 1, i)) && traceat(cb, 1, i) < 1 + 8 * (rangeindex + 1)
 //@   loop 0 invariant [ascending] forall i int, j int :: old(tracelen(cb)) <= i && i < j && j < tracelen(cb) ==> traceat(cb, 1, i) < traceat(cb, 1, j)
 //@   loop 0 invariant [alltrue] forall i int :: old(tracelen(cb)) <= i && i < tracelen(cb) ==> traceat(cb, 2, i) == 1
 //@   loop 1 invariant [len] tracelen(cb) >= old(tracelen(cb)) && 0 <= rangeint_iter && rangeint_iter < 8 && 0 <= rangeindex@0 + 1 && rangeindex@0 + 1 < len(bf.data)
+//@   loop 1 invariant [count] tracelen(cb) - old(tracelen(cb)) == cnt(bf.data, rangeindex@0 + 1) + popbelow(bf.data[rangeindex@0 + 1], rangeint_iter)
 //@   loop 1 invariant [members] forall i int :: old(tracelen(cb)) <= i && i < tracelen(cb) ==> mem(bf, traceat(cb, 1, i)) && traceat(cb, 1, i) < 1 + 8 * (rangeindex@0 + 1) + rangeint_iter
 //@   loop 1 invariant [ascending] forall i int, j int :: old(tracelen(cb)) <= i && i < j && j < tracelen(cb) ==> traceat(cb, 1, i) < traceat(cb, 1, j)
 //@   loop 1 invariant [alltrue] forall i int :: old(tracelen(cb)) <= i && i < tracelen(cb) ==> traceat(cb, 2, i) == 1
